@@ -9,7 +9,7 @@ CLAIMED = {
  "C08": ("exploration", "4.5", "seeded syscall-level interleaving search of 2-3 actors (own DiskRefsContainer/Repo each) over the ref API and committers on one branch; recorded invoke/return histories checked for linearizability against a sequential ref-map model by brute force, final on-disk state read by a fresh process; commit scenarios check every acknowledged commit is an ancestor of the final tip",
          "schedules sampled not enumerated; multi-name reads judged per name; two recorded findings (known_findings.json) suppress only histories showing their specific interleaving mechanism",
          "deterministic simulation: baton-passing actors over simfs, seeded schedules (uniform/burst/PCT/targeted), linearizability checking of recorded histories against a reference model"),
- "C09": ("fault_enumeration", "4.6", "per seeded scenario (generated repository x one of 24 repository-changing operations) every boundary before a mutating system call is enumerated as a crash point; the disk image of a process crash (and, with core.fsyncObjectFiles, of a power loss with un-fsynced data lost/torn/zeroed) is materialised and opened by a fresh Repo; refs must be old-or-new and name intact complete objects, everything reachable before must be intact, nothing visible may fail its hash, index/config old-or-new, a follow-up operation must work",
+ "C09": ("fault_enumeration", "4.6", "per seeded scenario (generated repository x one of 38 repository-changing operations incl. the server's receive-pack with and without atomic, an in-process push, stash push/pop/drop, reset --hard, notes, repack with bitmaps) every boundary before a mutating system call is enumerated as a crash point; the disk image of a process crash (and, with core.fsyncObjectFiles, of a power loss with un-fsynced data lost/torn/zeroed) is materialised and opened by a fresh Repo; refs must be old-or-new and name intact complete objects, everything reachable before must be intact, nothing visible may fail its hash, index/config old-or-new, a follow-up operation must work",
          "crash points exhaustive within a scenario, scenarios sampled; metadata operations assumed ordered and durable (ext4-ordered-like); directory fsync not modelled",
          "deterministic simulation: syscall journal over simfs, exhaustive crash-point enumeration per scenario with process-crash and power-loss disk models, recovery oracle against an object/ref model"),
  "C10": ("exploration", "4.7", "(a) seeded build/maintenance histories on a virtual clock (loose objects, packs, duplicates, refs moved/deleted, detached HEAD, tags, alternates, clock advances and skews; pack_loose/repack/gc/prune with grace 0/None/default, midx, commit-graph) checked after every maintenance step against an object/ref model incl. the grace-period bound; (b) maintenance actor against 1-2 long-lived reader actors interleaved at syscall granularity with optional injected write- and read-side errors (EIO/EMFILE/EACCES on open, read, listdir), every lookup/iteration (also iterate-and-look-up on one handle) of a reachable id must succeed; a read error inside a maintenance step may fail it but may not lose anything",
